@@ -1,0 +1,43 @@
+// Copyright 2023 Ross Light
+//
+// Licensed under the Apache License, Version 2.0 (the "License");
+// you may not use this file except in compliance with the License.
+// You may obtain a copy of the License at
+//
+//		 https://www.apache.org/licenses/LICENSE-2.0
+//
+// Unless required by applicable law or agreed to in writing, software
+// distributed under the License is distributed on an "AS IS" BASIS,
+// WITHOUT WARRANTIES OR CONDITIONS OF ANY KIND, either express or implied.
+// See the License for the specific language governing permissions and
+// limitations under the License.
+//
+// SPDX-License-Identifier: Apache-2.0
+
+//go:build verif
+
+package commonmark
+
+import "sync/atomic"
+
+// This file is only compiled with the "verif" build tag.
+// verifYield marks the points inside the library's loops
+// at which an external conformance harness may suspend the calling goroutine
+// in order to interleave concurrent callers deterministically.
+// Without an installed hook it does nothing.
+
+var verifYieldHook atomic.Value // of func(site string)
+
+// SetVerifYield installs f as the yield hook. A nil f removes the hook.
+func SetVerifYield(f func(site string)) {
+	if f == nil {
+		f = func(string) {}
+	}
+	verifYieldHook.Store(f)
+}
+
+func verifYield(site string) {
+	if f, _ := verifYieldHook.Load().(func(string)); f != nil {
+		f(site)
+	}
+}
